@@ -101,6 +101,7 @@ func (r *Run) Case(key string, nontrivial bool) {
 }
 
 func (r *Run) Choose(kind string, n int) int       { return r.Tape.Choose(kind, n) }
+func (r *Run) ChooseOpt(kind string, n int) int    { return r.Tape.ChooseOpt(kind, n) }
 func (r *Run) Bool(kind string, num, den int) bool { return r.Tape.Bool(kind, num, den) }
 
 func (r *Run) Logf(format string, a ...interface{}) {
